@@ -159,6 +159,38 @@ CLAIMED = {
              "(their contracts are C07/C08). A per-call boundary word never used because all widths are zero is not required to raise.",
         technique="contract-based deductive verification: exceptional postconditions (raises-clauses) by symbolic execution of the real functions",
     ),
+    "C07": dict(
+        category="proof",
+        text=("Kernel: the REAL _interp_1d_conservative function object (only the absent numba decorator dropped) is executed "
+              "symbolically for one generic (cell, bin) iteration with all values symbolic; its contribution is proved equal to "
+              "overlap-fraction x phi written from the statement (homogeneous cell: the one bin [lo,hi) containing it, last bin "
+              "closed); the accumulate-loop shape that justifies the generic iteration is checked on the AST every run. "
+              "Conservation (telescoping over contiguous bins), bin merging and non-negativity are z3 lemmas over that "
+              "contribution. Wrapper: interp_1d_conservative raises iff bins are not strictly monotonic, hands the kernel the "
+              "edges in increasing order and reverses the result along the BIN axis for decreasing bins (any number of columns). "
+              "xarray level: transform(method='conservative') passes data / target_data columns (interpolated to the bounds with "
+              "extend when given on centres) with the axis as core dim, names the new dimension, attaches bin centres."),
+        design_ref="DESIGN.md 2.2, 7/C07",
+        note=COMMON_NOTE + "Assumed: guvectorize column independence; accumulate-loop rule + exchange of finite sums; target_data "
+             "and bins finite; floats as reals. The design's ghost-sum loop invariants were replaced by the equivalent "
+             "generic-iteration + lemma argument (see DESIGN.md 11).",
+        technique="contract-based deductive verification: generic-iteration loop rule on the real kernel + z3 lemmas (telescoping induction) + wrapper contracts",
+    ),
+    "C08": dict(
+        category="proof",
+        text=("Kernel: the REAL _interp_1d_linear function object executed symbolically (n, m, all values symbolic, strictly "
+              "increasing and strictly decreasing theta, mask_edges x bypass_checks) against the assumed np.interp contract: "
+              "inside the range the output is the line through the two adjacent (theta, phi) points for either direction, "
+              "outside it NaN (mask_edges) or the nearest end value, exactly at the end values not masked; np.interp's "
+              "precondition (increasing xp) is an obligation of the kernel. interp_1d_linear: log = same call on logarithms. "
+              "transform(method=linear|log): data/target_data columns and levels (per column for an N-D target with target_dim) "
+              "reach the kernel with the axis last, flags forwarded, new dimension named after target / target_data / "
+              "TRANSFORMED_DIMENSION, result named input+suffix."),
+        design_ref="DESIGN.md 7/C08",
+        note=COMMON_NOTE + "Assumed: np.interp / nanmax / nanmin / log contracts; guvectorize column independence; theta finite "
+             "and strictly monotonic (the statement's precondition).",
+        technique="contract-based deductive verification: symbolic execution of the real kernel against an assumed np.interp contract + wrapper contracts",
+    ),
 }
 
 NOT_YET = {}
